@@ -58,16 +58,19 @@ def pv_macro(v):
     return sources.pv(v)
 
 
-def gen_programs(ctx, n, big=False, layouts=('canonical', 'random', 'multi', 'macro')):
+def gen_programs(ctx, n, big=False, layouts=('canonical', 'random', 'multi', 'macro', 'reentry', 'canonical_multi')):
     """sources with their typed form; returns list of dicts {defs, main, main_file, files, layout, L}"""
     r = ctx.rnd
     out = []
     for _ in range(n):
         g = sources.Gen(r, big=big)
-        defs, main = g.program()
         lay = r.choice(layouts)
+        defs, main = sources.reentry_program(r) if lay == 'reentry' else g.program()
         L = None
-        if lay == 'canonical':
+        if lay == 'canonical_multi':
+            fl, L = sources.canonical_multi(defs, main, r)
+            files = {k.encode(): v.encode() for k, v in fl.items()}
+        elif lay in ('canonical', 'reentry'):
             text, L = sources.canonical(defs, main, r)
             files = {b'm': text.encode()}
         elif lay == 'random':
@@ -306,7 +309,7 @@ def check_C07(ctx, thms=None):
     build_all(ctx, ['Theo.Props.C07'] if thms else [], thms or [])
     if ctx.harness is None:
         return finish(ctx)
-    cases = gen_programs(ctx, ctx.n(600, 6000), layouts=('canonical',))
+    cases = gen_programs(ctx, ctx.n(600, 6000), layouts=('canonical', 'canonical_multi', 'canonical_multi', 'reentry'))
     tri = [(c['mainf'], c['files'], c) for c in cases]
     a, b = front.corr_gen(ctx, tri)
     traces = impl(ctx, ['STEPTRACE %s 400000' % files_req(c['mainf'], c['files']) for c in cases], timeout=120)
@@ -338,8 +341,9 @@ def check_C07(ctx, thms=None):
             if got[k][0] == b'__standards__':
                 bad = 'stop %d is in the hidden standard-macro file' % k
                 break
-            if got[k][1] != exp[k][0]:
-                bad = 'stop %d is on line %d, the source-level semantics visits line %d (visits so far: %s)' % (k, got[k][1], exp[k][0], [e[0] for e in exp[:k + 1]][-8:])
+            ef, el = exp[k][0] if isinstance(exp[k][0], tuple) else ('m', exp[k][0])
+            if got[k][1] != el or got[k][0].decode('latin1') != ef:
+                bad = 'stop %d is at %s:%d, the source-level semantics visits %s:%d (visits so far: %s)' % (k, got[k][0].decode('latin1'), got[k][1], ef, el, [e[0] for e in exp[:k + 1]][-8:])
                 break
             if len(got[k][2]) != len(exp[k][1]):
                 bad = 'stop %d: %d live activations, expected %d' % (k, len(got[k][2]), len(exp[k][1]))
